@@ -40,12 +40,18 @@ func c20(raw json.RawMessage) interface{} {
 	switch c.Op {
 	case "itf8enc":
 		buf := bytesOf(c.Buf)
-		n := itf8.Encode(buf, int32(c.V))
+		n, pan := c20encode(func() int { return itf8.Encode(buf, int32(c.V)) })
+		if pan != "" {
+			return map[string]interface{}{"panic": pan, "buf": ints(buf)}
+		}
 		v, dn, ok := itf8.Decode(buf[:n])
 		return map[string]interface{}{"n": n, "buf": ints(buf), "len": itf8.Len(int32(c.V)), "dv": int64(v), "dn": dn, "dok": ok}
 	case "ltf8enc":
 		buf := bytesOf(c.Buf)
-		n := ltf8.Encode(buf, c.V)
+		n, pan := c20encode(func() int { return ltf8.Encode(buf, c.V) })
+		if pan != "" {
+			return map[string]interface{}{"panic": pan, "buf": ints(buf)}
+		}
 		v, dn, ok := ltf8.Decode(buf[:n])
 		return map[string]interface{}{"n": n, "buf": ints(buf), "len": ltf8.Len(c.V), "dv": v, "dn": dn, "dok": ok}
 	case "itf8dec":
@@ -64,6 +70,17 @@ func c20(raw json.RawMessage) interface{} {
 		return c20decbatch(c.Seed, c.N)
 	}
 	return map[string]interface{}{"bad_case": "op"}
+}
+
+// c20encode runs an Encode call; a run-time panic is returned as text so that
+// the destination can still be reported (it must be untouched).
+func c20encode(f func() int) (n int, pan string) {
+	defer func() {
+		if r := recover(); r != nil {
+			pan = fmt.Sprint(r)
+		}
+	}()
+	return f(), ""
 }
 
 // ---- stream readers of cram.go ------------------------------------------------
@@ -286,6 +303,7 @@ type c20bad struct {
 func c20checkITF8(v int32, buf, junk []byte) string {
 	var store [9]byte
 	ref := c20refITF8(v, &store)
+	buf = buf[:len(ref)+int(uint32(v)>>3)%3] // exactly Len, Len+1 or Len+2 bytes
 	for i := range buf {
 		buf[i] = 0xa5
 	}
@@ -324,6 +342,7 @@ func c20checkITF8(v int32, buf, junk []byte) string {
 func c20checkLTF8(v int64, buf, junk []byte) string {
 	var store [9]byte
 	ref := c20refLTF8(v, &store)
+	buf = buf[:len(ref)+int(uint64(v)>>3)%3] // exactly Len, Len+1 or Len+2 bytes
 	for i := range buf {
 		buf[i] = 0xa5
 	}
